@@ -47,6 +47,20 @@ Theorem C15_paired_single_ip :
 Proof. exact paired_all. Qed.
 Print Assumptions C15_paired_single_ip.
 
+(* releasing a subscriber leaves it without blocks; none of its former blocks is held by anybody, and each of them
+   can be granted again to any subscriber whose limit and pairing allow it *)
+Theorem C15_release_frees_all :
+  forall r p0 ops k, wf_range r -> configure repaired r = Some p0 ->
+  let c := effective r in
+  let p := run repaired c p0 ops in
+  let p' := fst (step repaired c p (ORelease k)) in
+  blocks_of p' k = [] /  forall b, In b (blocks_of p k) ->
+    (forall k', ~ In b (blocks_of p' k')) /    (forall k', limit_reached c p' k' = false ->
+                (c_paired c = true -> forall b', In b' (blocks_of p' k') -> b_ip b' = b_ip b) ->
+                exists p'', alloc_obs c p' k' b = Some p'').
+Proof. exact release_frees_all. Qed.
+Print Assumptions C15_release_frees_all.
+
 (* ---- what the unchanged code violates (variant [defective] = the code as it is today) ---- *)
 
 (* RestoreMapping accepts an unaligned block overlapping subscriber 1's block; releasing the restored subscriber
